@@ -289,8 +289,10 @@ class Problem:
             >>> prob.subject_to(x >= 0)  # Adds 100 constraints
         """
         if isinstance(constraint, list):
-            for c in constraint:
-                self._constraints.append(self._validate_constraint(c))
+            # Validate the whole list first: a bad element must not leave the
+            # earlier ones appended behind caches that were never invalidated.
+            validated = [self._validate_constraint(c) for c in constraint]
+            self._constraints.extend(validated)
         else:
             self._constraints.append(self._validate_constraint(constraint))
         self._invalidate_caches()
